@@ -34,7 +34,7 @@ UNSUPPORTED = ["lzma_bcj2_1.7z", "lz4.7z", "zstdmt-brotli.7z", "lzma2bcj2.7z"]
 def plan(tier):
     if tier == "thorough":
         return {"n": None, "budget_s": int(os.environ.get("VERIF_BUDGET_S", "900")), "case_timeout": 300}
-    return {"n": 500, "budget_s": 170, "case_timeout": 120}
+    return {"n": 2500, "budget_s": 170, "case_timeout": 120}
 
 
 SIZES_OK = ["100", "1000", "4096", "64b", "100B", "1k", "1K", "2k", "10K", "1m", "1M", "1g", "1G", "65536", "300b"]
@@ -43,9 +43,28 @@ SIZES_BAD = ["10x", "k", "1kb", "-5", "1.5k", "", "10 k"]
 
 def gen_case(rng: Rng, i: int, tier: str):
     r = rng.sub("k")
-    kind = r.wpick([(4, "roundtrip"), (2, "volumes"), (4, "faults")])
+    kind = r.wpick([(4, "roundtrip"), (2, "volumes"), (4, "faults"), (3, "foreign")])
     t = tree.gen_tree(r, maxdepth=3, nmax=8, name_style=r.pick(["ascii", "bmp", "ascii"]), links=r.chance(0.4), block=32768, maxlen=4000)
     case = {"kind": kind, "tree": t, "arcname_ext": r.chance(0.5), "odir": r.chance(0.6), "verbose": r.chance(0.3), "rng": r.randrange(1 << 30)}
+    case["odir_omit"] = r.chance(0.5)  # no output directory: '.' given, or the argument left out altogether
+    if kind == "foreign":
+        # an archive of the independent reference writer (any layout 7-Zip may produce: no packed streams at all, members
+        # without attributes or times, several folders, ...), intact or damaged, through 'l', 't' and 'x'
+        from props import c06
+
+        c = c06.gen_case(rng.sub("ref"), i, tier)
+        if "members" in c:
+            case["ref"] = {"members": c["members"], "layout": c["layout"]}
+            case["fault"] = r.wpick([(5, "none"), (2, "flip_data"), (2, "flip_header"), (1, "truncate")])
+            case["fseed"] = r.randrange(1 << 30)
+            case["tree"] = []
+            if case["fault"] != "none":
+                # damage can only be noticed where a checksum covers it (C04): per-member or per-folder CRCs, header CRC
+                if case["ref"]["layout"].get("crc") == "none":
+                    case["ref"]["layout"]["crc"] = r.pick(["substream", "folder"])
+                case["ref"]["layout"]["header_crc"] = True
+            return case
+        case["kind"] = kind = "roundtrip"
     if kind == "roundtrip":
         case["password"] = ("pw-%d" % r.randrange(1000)) if r.chance(0.3) else None
         case["tree2"] = tree.gen_tree(r, maxdepth=2, nmax=4, name_style="ascii", links=False, block=32768, maxlen=2000)
@@ -173,7 +192,7 @@ def run_case(case):
                     viol("exit_0_on_failure", "t", "'t' (which cannot ask for a password) exited 0 on an encrypted archive", fault="no_password")
                 odir = os.path.join(scratch, "out1")
                 os.makedirs(odir)
-                st, out, err = cli(["x"] + (["-P"] if pw else []) + [arc] + (["."] if not case["odir"] else [odir]) + (["--verbose"] if case["verbose"] else []),
+                st, out, err = cli(["x"] + (["-P"] if pw else []) + [arc] + (([] if case.get("odir_omit") else ["."]) if not case["odir"] else [odir]) + (["--verbose"] if case["verbose"] else []),
                                    cwd=odir if not case["odir"] else work, password=pw)
                 if st != 0:
                     viol("intact_archive_fails", "x", "'x' of an intact archive exit %r: %r" % (st, (out + err)[-300:]))
@@ -248,6 +267,8 @@ def run_case(case):
                     if st == 0:
                         viol("invalid_size_accepted", "c -v", "'c -v %r' exited 0" % size)
                 res["sigs"].append((["volumes", size, case["arcname_ext"]], True))
+            elif case["kind"] == "foreign":
+                foreign(py7zr, case, work, scratch, cli, viol, res)
             else:
                 self_faults(py7zr, case, work, scratch, cli, viol, res)
         return _finish(res, case, log)
@@ -359,6 +380,92 @@ def self_faults(py7zr, case, work, scratch, cli, viol, res):
     res["sigs"].append((["faults", fault, cmd, recoverable], True))
     res["probes"]["damaged_but_recoverable"] = 1 if (fault.startswith("flip") or fault == "truncate") and recoverable else 0
     res["probes"]["must_fail_cases"] = 1 if must_fail else 0
+
+
+def foreign(py7zr, case, work, scratch, cli, viol, res):
+    from props import rsess
+
+    r = Rng(case["fseed"], "f")
+    fault = case["fault"]
+    built = rsess.build_from_ref(case["ref"])
+    if built.error is not None or built.image is None:
+        res["rejected"]["reference_writer"] = 1
+        return
+    pw = built.password
+    img = built.image
+    a = built.ref
+    pristine = [(m.name, m.data) for m in a.members]
+    if fault == "flip_data" and a.data_end:
+        d = bytearray(img)
+        d[32 + r.randrange(a.data_end)] ^= 1 << r.randrange(8)
+        img = bytes(d)
+    elif fault == "flip_header":
+        lo = 32 + (a.data_end or 0)
+        d = bytearray(img)
+        d[r.randrange(8, 32) if r.chance(0.2) or lo >= len(img) else r.randrange(lo, len(img))] ^= 1 << r.randrange(8)
+        img = bytes(d)
+    elif fault == "truncate":
+        img = img[: r.randrange(len(img))]
+    damaged = img != built.image
+    try:
+        # judged by consequence: the damage matters when the original members can no longer be read back (a flipped
+        # bit in stream padding that only a pack-stream CRC covers, which neither 7-Zip nor py7zr verify on 't', does not)
+        b = ref7z.read(img, pw)
+        recoverable = not b.undecoded and [(m.name, m.data) for m in b.members] == pristine
+    except Exception:
+        recoverable = False
+    arc = os.path.join(work, "f.7z")
+    with open(arc, "wb") as f:
+        f.write(img)
+    res["faults"]["foreign_" + fault] = 1
+    c = {"fault": fault, "source": "reference writer"}
+
+    def lib(fn, password):
+        try:
+            with py7zr.SevenZipFile(arc, password=password) as z:
+                return ("ok", fn(z))
+        except Exception as e:
+            return ("raised", type(e).__name__)
+
+    # 'l': the members the library reports
+    lv = lib(lambda z: z.getnames(), None)
+    st, out, err = cli(["l", "f.7z"])
+    if lv[0] == "ok":
+        lines = out.splitlines()
+        seps = [k for k, ln in enumerate(lines) if ln.startswith("-------------------")]
+        got_names = [ln[53:] for ln in lines[seps[0] + 1:seps[1]]] if len(seps) >= 2 else None
+        if st != 0 or got_names != lv[1]:
+            viol("list_differs", "l", "'l' exit %r lists %r, the library reports %r; %r" % (st, (got_names or [])[:4], lv[1][:4], err[-200:]), **c)
+    elif st == 0:
+        viol("exit_0_on_failure", "l", "'l' exited 0 on an archive the library refuses to open (%s)" % lv[1], **c)
+    # 't': the library's verdict without a password
+    tv = lib(lambda z: z.testzip(), None)
+    lib_good = tv == ("ok", None)
+    st, out, err = cli(["t", "f.7z"])
+    if (st == 0) != lib_good:
+        viol("exit_0_on_failure" if st == 0 else "intact_archive_fails", "t", "'t' exit %r, the library's testzip() without a password gives %r; %r" % (st, tv, (out + err)[-300:]), **c)
+    if st == 0 and damaged and not recoverable:
+        viol("exit_0_on_failure", "t", "'t' exited 0 although the members are not recoverable (fault %r)" % fault, **c)
+    # 'x': the library's extractall with the same password
+    odl, odc = os.path.join(scratch, "outl"), os.path.join(scratch, "outc")
+    os.makedirs(odl)
+    os.makedirs(odc)
+    xv = lib(lambda z: z.extractall(path=odl), pw)
+    omit = case.get("odir_omit") and not case["odir"]
+    st, out, err = cli(["x"] + (["-P"] if pw is not None else []) + [arc] + ([] if omit else [odc]), password=pw, cwd=odc if omit else work)
+    if (st == 0) != (xv[0] == "ok"):
+        viol("exit_0_on_failure" if st == 0 else "intact_archive_fails", "x", "'x' exit %r, the library's extractall gives %r; %r" % (st, xv, (out + err)[-300:]), **c)
+    elif st == 0:
+        tl, tc = rsess.snapshot_tree(odl), rsess.snapshot_tree(odc)
+        if tl != tc:
+            diff = sorted(k for k in set(tl) | set(tc) if tl.get(k) != tc.get(k))
+            viol("extracted_tree_differs", "x", "'x' and extractall produce different trees: %r" % diff[:4], **c)
+        if damaged and not recoverable:
+            viol("exit_0_on_failure", "x", "'x' exited 0 although the members are not recoverable (fault %r)" % fault, **c)
+    main = a.main
+    res["sigs"].append((["foreign", fault, main is None, len(pristine), recoverable, pw is not None], True))
+    res["probes"]["foreign_without_packed_streams"] = 1 if main is None or not main.get("folders") else 0
+    res["probes"]["foreign_with_symlink_member"] = 1 if any(m.kind == "symlink" for m in a.members) else 0
 
 
 def shrink_candidates(case):
